@@ -3,7 +3,7 @@ from __future__ import annotations
 
 import z3
 
-from .common import (And, Or, Q, T, _s, all_p, all_u, as_set_eq, assume_strict, lookup_structs, mk_recs, records_eq,
+from .common import (And, Or, Q, T, _s, _val_eq, all_p, all_u, as_set_eq, assume_strict, lookup_structs, mk_recs, records_eq,
                      shape_jobs, snapshot_records, structs_eq, sym_eq, Rec)
 
 EXPLANATION = (
@@ -35,11 +35,15 @@ SHAPES = [
     ("step", [[0, 0]], False, Q, dict(params=dict(new=[1, 1], cs=False), budget=600, shard=7)),
     ("step", [[1, 1]], False, Q, dict(params=dict(new=[0, 0], cs=False), budget=600, shard=6)),
     ("addprefix", [[1, 0]], False, Q, dict(params=dict(new=[1, 1], cs=True), budget=600, shard=6)),
+    ("queries", [[0, 0]], False, Q, dict(params=dict(new=[0, 1], cs=True), budget=900, shard=7)),
+    ("queries", [[1, 0]], False, T, dict(params=dict(new=[1, 0], cs=True), budget=3000, shard=9)),
+    ("step", [[1, 0], [0, 0]], False, Q, dict(params=dict(new=[0, 0], cs=False), budget=900, shard=7)),
+    ("queries", [[0, 1], [0, 0]], False, T, dict(params=dict(new=[1, 1], cs=True), budget=3000, shard=9)),
     ("step", [[1, 1], [0, 0]], False, T, dict(params=dict(new=[1, 1], cs=True), budget=2400, shard=8)),
     ("step", [[0, 0]] * 3, False, T, dict(params=dict(new=[1, 1], cs=True), budget=2400, shard=8)),
     ("step", [[1, 1]], False, T, dict(params=dict(new=[2, 0], cs=True), budget=1800, shard=6)),
     ("step", [[1, 1]], False, T, dict(params=dict(new=[0, 2], cs=True), budget=1800, shard=6)),
-    ("step", [[1, 1]], False, T, dict(params=dict(new=[1, 1], cs=False), budget=2400, shard=8)),
+    ("step", [[1, 1]], False, T, dict(params=dict(new=[1, 1], cs=False), budget=3000, shard=12)),
     ("step", [[0, 0], [0, 0]], False, T, dict(params=dict(new=[1, 1], cs=False), budget=2400, shard=8)),
     ("pattern", [[0, 0]], False, Q, dict(params=dict(new=[0, 0], cs=True))),
     ("history2", [[0, 0]], False, T, dict(params=dict(new=[0, 0], cs=True), budget=2400, shard=8)),
@@ -48,7 +52,7 @@ SHAPES = [
 
 
 def jobs(tier):
-    return shape_jobs(SHAPES, tier, {"step": ["rejected", "merged", "appended"], "addprefix": ["rejected", "merged", "appended"],
+    return shape_jobs(SHAPES, tier, {"step": ["rejected", "merged", "appended"], "addprefix": ["rejected", "merged", "appended"], "queries": ["rejected", "merged", "appended"],
                                      "pattern": ["merged", "appended"], "history2": ["done"]})
 
 
@@ -65,9 +69,12 @@ def fresh_from(eng, c):
                                      uri_prefix_synonyms=list(r.uri_prefix_synonyms), pattern=r.pattern) for r in c.records])
 
 
-def one_step(eng, c, pre_recs, new, cs, merge, via_add_prefix=False):
+def one_step(eng, c, pre_recs, new, cs, merge, via_add_prefix=False, queries=None):
     """Apply one operation and check the post-conditions. Returns the outcome class."""
     api = eng.mods.api
+    if queries is not None:
+        for name, args in queries:      # warm-up: ask before the operation what will be asked after it
+            getattr(c, name)(*args)
     before_recs, before_structs = snapshot_records(c), lookup_structs(c)
     nmatch = z3.Sum([z3.If(match_formula(eng, new, r, cs), 1, 0) for r in pre_recs]) if pre_recs else z3.IntVal(0)
     try:
@@ -90,6 +97,24 @@ def one_step(eng, c, pre_recs, new, cs, merge, via_add_prefix=False):
         return "broken"
     eng.expect(structs_eq(lookup_structs(c), lookup_structs(fresh)),
                "lookup structures differ from those of a converter freshly built from the current records (index drift)")
+    # the converter's own Record objects must describe themselves correctly to a strict constructor (one-owner uniqueness)
+    try:
+        api.Converter(list(c.records))
+        eng.ok()
+    except ValueError as e:
+        eng.fail(f"the converter's own records are rejected by the strict constructor ({type(e).__name__})")
+    zz = eng.var("zz_fresh_uri")
+    eng.assume(And([_s(zz) != _s(u) for r in c.records for u in [r.uri_prefix, *r.uri_prefix_synonyms]]))
+    for p in new.all_p[-1:]:
+        try:
+            api.Converter([*c.records, api.Record(prefix=p, uri_prefix=zz)])
+            eng.fail("a strict constructor accepts the current records together with a second owner of a prefix they hold")
+        except ValueError:
+            eng.ok()
+    if queries is not None:
+        for name, args in queries:
+            a, b = getattr(c, name)(*args), getattr(fresh, name)(*args)
+            eng.expect(_val_eq(a, b), f"{name} answers differently from a converter freshly built from the current records")
     for p in new.all_p:
         got = c.standardize_prefix(p)
         eng.expect(got is not None and sum(1 for r in c.records if sym_eq(r.prefix, got)) == 1 and c.expand_pair(p, "1") is not None,
@@ -140,7 +165,13 @@ def build(job):
         if fn == "pattern":
             new.pattern = eng.var("patn") if eng.flag("haspatn") else None
         merge = eng.flag("merge")
-        return one_step(eng, c, pre, new, cs, merge, via_add_prefix=(fn == "addprefix"))
+        queries = None
+        if fn == "queries":
+            qu, qc, qp = eng.var("q_uri"), eng.var("q_curie"), eng.var("q_prefix")
+            queries = [("compress", (qu,)), ("standardize_uri", (qu,)), ("expand", (qc,)), ("expand_all", (qc,)),
+                       ("standardize_prefix", (qp,)), ("get_record", (qp,))]
+            queries = [(n, a) for n, a in queries if n != "get_record"] + [("is_curie", (qc,)), ("is_uri", (qu,))]
+        return one_step(eng, c, pre, new, cs, merge, via_add_prefix=(fn == "addprefix"), queries=queries)
 
     def history2(eng):
         api = eng.mods.api
